@@ -156,12 +156,14 @@ func faultProfile() chain.Profile {
 func poorProfile() chain.Profile {
 	p := payProfile()
 	p.Name = "poor"
-	p.Nodes = []string{"a01", "a02", "a03", "a04"}
+	p.Nodes = []string{"a01", "a02", "a03"}
+	p.PayAcc = map[string]string{"d1": "a07"}
+	p.RenewMulti = 60
 	p.MaxData = 3
 	p.Weights = map[string]int{"Blocks": 16, "StoreNew": 8, "Complete": 30, "Renew": 16, "Migrate": 8, "Claim": 6, "Terminate": 3,
-		"Drain": 8, "Refill": 4, "StoreUpdate": 3}
-	p.Sizes = []int64{5000, 10000}
-	p.Durs = []int64{3600, 7200, 20000}
+		"Drain": 4, "Refill": 2, "StoreUpdate": 3}
+	p.Sizes = []int64{10000}
+	p.Durs = []int64{3600, 3600, 7200, 20000}
 	p.Timeouts = []int64{20, 1800}
 	p.Replicas = []int64{1, 2}
 	return p
